@@ -45,6 +45,7 @@ type PeerScript struct {
 	DefaultAns string            `json:"defaultans"` // answer token for MIDs not listed
 	PreFS      []string          `json:"prefs"`      // comment / ;PM lines before each FS line
 	PreProp    []string          `json:"preprop"`    // comment / ;PM lines before each proposal block
+	HangUpAfterFQ bool           `json:"hangupafterfq"` // CMS habit: the connection is closed right after FQ was sent
 	EarlyFQ    bool              `json:"earlyfq"`    // CMS style: FQ instead of FF when nothing (more) to send, whatever the other side said
 	TrailingLF bool              `json:"trailinglf"` // terminate lines with CR LF instead of CR
 	FFFirst    bool              `json:"fffirst"`    // send FF in the first own turn although messages are pending (they "arrive later")
@@ -228,7 +229,11 @@ func (p *peer) myTurn() (quit bool, err error) {
 	p.ev(rec.Event{"op": "Offer", "ms": mids, "fw": []string{}, "lib": false})
 	if len(pend) == 0 {
 		if p.libLastEmpty || (p.sc.EarlyFQ && p.libHadTurn) {
-			return true, p.send("FQ")
+			err := p.send("FQ")
+			if p.sc.HangUpAfterFQ {
+				p.conn.Close()
+			}
+			return true, err
 		}
 		return false, p.send("FF")
 	}
